@@ -60,6 +60,12 @@ def scratch_root():
     return _scratch_root
 
 
+def cleanup_scratch():
+    """Children that leave through os._exit() run no exit handlers: they remove their own scratch directory here."""
+    if _scratch_root is not None and _scratch_pid == os.getpid():
+        shutil.rmtree(_scratch_root, True)
+
+
 def worker_setup():
     """Idempotent. Makes `import FlowCal` resolve to the repository working tree."""
     global _setup_done
